@@ -132,7 +132,7 @@ def install_alarm():
 
 class RunResult:
     __slots__ = ("run", "config", "ops", "outcomes", "digest", "violations",
-                 "stats", "shape", "nontrivial", "state_hashes", "harness_error")
+                 "stats", "shape", "nontrivial", "state_hashes", "harness_error", "foreign")
 
     def __init__(self):
         self.run = None
@@ -146,15 +146,17 @@ class RunResult:
         self.nontrivial = False
         self.state_hashes = []
         self.harness_error = None
+        self.foreign = []
 
 
 def execute(engine, prop, config, ops=None, rng=None, stop_on=None):
     """Execute one history.  Either `ops` (replay / minimisation) or `rng`
-    (generation) is given.  Stops at the first step that yields any violation;
-    all violations found at that step are kept (the world is no longer
-    trustworthy afterwards).  `stop_on` is accepted for symmetry with the
-    minimiser and ignored: a minimised history must fail *first* in the same
-    class, which is what makes its replay fail "the same way"."""
+    (generation) is given.  Stops at the first step that yields a violation of
+    `prop`; all violations found at that step are kept.  Violations attributed
+    to other properties are kept as observations (`foreign`) and do not stop
+    the run.  `stop_on` is accepted for symmetry with the minimiser and
+    ignored: a minimised history must fail *first* (for this property) in the
+    same class, which is what makes its replay fail "the same way"."""
     res = RunResult()
     res.config = config
     world = engine.new_world(config, prop)
@@ -194,8 +196,15 @@ def execute(engine, prop, config, ops=None, rng=None, stop_on=None):
                 for v in vs:
                     v["step"] = i
                     v["op"] = op["op"]
-                res.violations = vs
-                break
+                own = [v for v in vs if v["prop"] == prop]
+                if own:
+                    res.violations = vs
+                    break
+                # violations of *other* properties are observations: recorded, and the run goes on,
+                # so that on a tree where (say) the views are broken the language check still gets
+                # to see what that does to the operations it is responsible for
+                if len(res.foreign) < 8:
+                    res.foreign.extend(vs)
         for k, n in world.stats.items():
             res.stats[k] += n
         res.nontrivial = bool(world.nontrivial)
@@ -382,9 +391,9 @@ def _run_chunk(args):
         if res.nontrivial:
             nontriv_shapes.append(res.shape)
         finals.extend(res.state_hashes[-1:])
-        if res.violations:
+        if res.violations or res.foreign:
             viols.append({"run": r, "config": res.config, "ops": res.ops,
-                          "violations": res.violations})
+                          "violations": res.violations + res.foreign})
             if len(viols) > 20:
                 viols = viols[:20]
         if want_samples and len(samples) < want_samples and res.nontrivial:
